@@ -144,6 +144,31 @@ class Scene(object):
         self.handlers.config = self.cfg
         self.handled = set(handled)
 
+    def retable(self):
+        """Registers / replaces handlers on the same Config object (the documented way to add handlers:
+        config.serialize_handlers[type] = fn), keeping or changing the table size."""
+        rng = self.rng
+        old = list(self.handled)
+        mode = rng.random()
+        pool = [t for t in HANDLED_BUILTINS + HANDLED_LIBRARY + [s.cls for s in self.shapes] if t not in self.handled]
+        if mode < 0.5 and old and pool:
+            # same size: one handler leaves, another one arrives
+            gone, new = rng.choice(old), rng.choice(pool)
+            handled = [t for t in old if t is not gone] + [new]
+        elif mode < 0.8 and pool:
+            handled = old + rng.sample(pool, min(len(pool), rng.randint(1, 2)))
+        else:
+            handled = rng.sample(old, rng.randint(0, len(old))) if old else []
+        self.handlers = Handlers(handled)
+        self.handlers.config = self.cfg
+        keep_none = [k for k, v in self.cfg.serialize_handlers.items() if v is None]
+        self.cfg.serialize_handlers.clear()
+        self.cfg.serialize_handlers.update(self.handlers.table)
+        for k in keep_none:
+            if k not in self.cfg.serialize_handlers:
+                self.cfg.serialize_handlers[k] = None
+        self.handled = set(handled)
+
     def dump_kwargs(self):
         kw = {"config": self.cfg}
         if self.custom_names and self.via == "argument":
@@ -355,8 +380,9 @@ def one_dump(ctx, scene, x, root_bean, own_ignore, call_ignore, position, desc):
     ctx.count("dumps")
     ctx.cell("pos", position)
     ctx.cell("names", "custom-" + scene.via if scene.custom_names else "default")
+    user = set(c.__name__ for c in scene.by_cls)
     for h in case["handled"]:
-        ctx.cell("handler", h)
+        ctx.cell("handler", "user-class" if h in user else h)
     try:
         out = jc.dump(x, **kw)
     except Exception as ex:
@@ -408,7 +434,10 @@ def run(ctx):
             ctx.sample({"classes": [s.describe() for s in scene.shapes],
                         "handled": sorted(t.__name__ for t in scene.handled),
                         "names": [scene.ser_name, scene.ign_name, scene.via]})
-        for shape in scene.shapes:
+        for si, shape in enumerate(scene.shapes):
+            if si and rng.random() < 0.6:
+                scene.retable()
+                ctx.count("handler-table-changed-in-place")
             obj = scene.instance(shape, 2)
             names = scene.fields_of(obj) or []
             if len(names) <= 5:
@@ -435,7 +464,7 @@ def finalize(m, tier):
     c = m["counters"]
     out = []
     for k, lo in (("dumps", 2000), ("judged:beans-walked", 3000), ("judged:handler-calls", 500),
-                  ("judged:decoy-ignore-attribute", 100), ("scenes", 100)):
+                  ("judged:decoy-ignore-attribute", 100), ("scenes", 100), ("handler-table-changed-in-place", 50)):
         if c.get(k, 0) < lo:
             out.append("monitor counter %s too low (%d < %d)" % (k, c.get(k, 0), lo))
     for cell in ("names/custom-config", "names/custom-argument", "names/default", "handler/str", "handler/tuple",
